@@ -856,6 +856,127 @@ Proof.
   unfold ahead in Hle. rewrite text_roundtrip in Hle. lia.
 Qed.
 
+(* ------------------------------------------------------------------------------------------------ sessions: any history of open requests *)
+
+Lemma files_records_app : forall a b last,
+  files_records last (a ++ b) = files_records last a ++ files_records (end_last last a) b.
+Proof.
+  induction a as [|f a IH]; intros b last; [reflexivity|].
+  cbn [app files_records]. rewrite IH, <- app_assoc. reflexivity.
+Qed.
+
+Lemma end_last_app a b last : end_last last (a ++ b) = end_last (end_last last a) b.
+Proof. unfold end_last. apply fold_left_app. Qed.
+
+Lemma first_match (p : wfile -> bool) : forall l,
+  Forall (fun x => p x = false) l \/
+  exists l1 x l2, l = l1 ++ x :: l2 /\ Forall (fun x => p x = false) l1 /\ p x = true.
+Proof.
+  induction l as [|a l IH]; [left; constructor|]. destruct (p a) eqn:E.
+  - right. exists [], a, l. repeat split; [constructor|exact E].
+  - destruct IH as [IH|(l1 & x & l2 & El & Hl1 & Hx)].
+    + left. constructor; assumption.
+    + right. exists (a :: l1), x, l2. subst. repeat split; [constructor; assumption|exact Hx].
+Qed.
+
+Lemma passed_over_all nreq treq : forall l, Forall file_ok l -> Forall skippable l ->
+  Forall (fun x => matches nreq treq x = false) l -> Forall (passed_over nreq treq) l.
+Proof.
+  induction l as [|a l IH]; intros H1 H2 H3; [constructor|].
+  inversion H1; inversion H2; inversion H3; subst. constructor; [unfold passed_over; split; [assumption|split; assumption]|apply IH; assumption].
+Qed.
+
+(* the device between two requests: closed, and the head at the header of one of the files (or at the end) *)
+Definition at_boundary (fs : list wfile) (st : rst) : Prop :=
+  exists l0 l1, fs = l0 ++ l1 /\ r_rest st = files_records (end_last (0, 0, 0) l0) l1 /\
+                r_open st = false /\ r_tape st = write_tape fs.
+
+Definition response_ok (fs : list wfile) (nreq treq : list Z) (o : ores) : Prop :=
+  o = OErr 24 \/ exists last f, In f fs /\ matches nreq treq f = true /\ o = OFile (view last f).
+
+Lemma last_ok0 : last_ok (0, 0, 0).
+Proof. unfold last_ok, u16. lia. Qed.
+
+(* one request from a boundary state: answered by Device Timeout or by a matching file of the tape exactly as
+   written, and the device is again closed with the head at a file boundary *)
+Theorem session_step fs st nreq treq : Forall file_ok fs -> Forall skippable fs ->
+  illegal_name nreq = false -> at_boundary fs st ->
+  at_boundary fs (fst (fst (open_read_all st nreq treq))) /\
+  response_ok fs nreq treq (snd (open_read_all st nreq treq)) /\
+  (snd (open_read_all st nreq treq) = OErr 24 -> r_rest (fst (fst (open_read_all st nreq treq))) = write_tape fs).
+Proof.
+  intros Hok Hsk Hn (l0 & l1 & Efs & Hrest & Hopen & Htape).
+  destruct st as [T R cur op]. cbn [r_rest r_open r_tape] in *. subst R op T.
+  assert (Hok0 : Forall file_ok l0) by (rewrite Efs in Hok; apply Forall_app in Hok; apply Hok).
+  assert (Hok1 : Forall file_ok l1) by (rewrite Efs in Hok; apply Forall_app in Hok; apply Hok).
+  assert (Hsk1 : Forall skippable l1) by (rewrite Efs in Hsk; apply Forall_app in Hsk; apply Hsk).
+  pose proof (end_last_ok _ _ Hok0 last_ok0) as Hl.
+  destruct (first_match (matches nreq treq) l1) as [Hnone|(la & f & lb & El1 & Hla & Hf)].
+  - rewrite (not_found _ cur nreq treq l1 _ (passed_over_all _ _ _ Hok1 Hsk1 Hnone) Hl Hn). cbn [fst snd].
+    split; [|split; [left; reflexivity|intros _; reflexivity]].
+    exists [], fs. cbn [app end_last fold_left r_rest r_open r_tape].
+    repeat split; try reflexivity. apply write_tape_records, Hok.
+  - subst l1. apply Forall_app in Hok1 as [Hoka Hokb]. apply Forall_app in Hsk1 as [Hska _].
+    apply Forall_cons_iff in Hokb as [Hokf Hoklb].
+    rewrite files_records_app. cbn [files_records].
+    rewrite (find_file _ cur nreq treq la f _ _ (passed_over_all _ _ _ Hoka Hska Hla) Hokf Hf Hl Hn).
+    cbn [fst snd]. split; [|split; [|discriminate]].
+    + exists (l0 ++ la ++ [f]), lb. cbn [r_rest r_open r_tape]. repeat split; try reflexivity.
+      * rewrite Efs, <- !app_assoc. reflexivity.
+      * rewrite !end_last_app. unfold end_last at 1. cbn [fold_left]. reflexivity.
+    + right. exists (end_last (end_last (0, 0, 0) l0) la), f. repeat split; [|exact Hf].
+      rewrite Efs. apply in_or_app. right. apply in_or_app. right. left. reflexivity.
+Qed.
+
+(* the answers of a whole history of requests *)
+Fixpoint session (st : rst) (reqs : list (list Z * list Z)) : list ores :=
+  match reqs with
+  | [] => []
+  | (n, t) :: r => snd (open_read_all st n t) :: session (fst (fst (open_read_all st n t))) r
+  end.
+
+Theorem session_sound fs : Forall file_ok fs -> Forall skippable fs -> forall reqs st,
+  Forall (fun q => illegal_name (fst q) = false) reqs -> at_boundary fs st ->
+  Forall2 (fun q o => response_ok fs (fst q) (snd q) o) reqs (session st reqs).
+Proof.
+  intros Hok Hsk. induction reqs as [|[n t] reqs IH]; intros st Hq Hb; [constructor|].
+  inversion Hq; subst. cbn [session]. destruct (session_step fs st n t Hok Hsk H1 Hb) as (Hb' & Hr & _).
+  constructor; [exact Hr|apply IH; assumption].
+Qed.
+
+Lemma at_boundary_start fs : Forall file_ok fs -> at_boundary fs (rst0 (write_tape fs)).
+Proof.
+  intros Hok. exists [], fs. cbn [app end_last fold_left rst0 r_rest r_open r_tape].
+  repeat split; try reflexivity. apply write_tape_records, Hok.
+Qed.
+
+(* whatever was asked before, a file that is on the tape is returned by the first or, after one Device
+   Timeout (the tape is rewound), by the second request that matches it *)
+Theorem found_within_two fs st nreq treq f : Forall file_ok fs -> Forall skippable fs ->
+  illegal_name nreq = false -> at_boundary fs st -> In f fs -> matches nreq treq f = true ->
+  let r1 := open_read_all st nreq treq in
+  let r2 := open_read_all (fst (fst r1)) nreq treq in
+  (exists last g, In g fs /\ matches nreq treq g = true /\ snd r1 = OFile (view last g)) \/
+  (snd r1 = OErr 24 /\ exists last g, In g fs /\ matches nreq treq g = true /\ snd r2 = OFile (view last g)).
+Proof.
+  intros Hok Hsk Hn Hb Hin Hm. cbv zeta.
+  destruct (session_step fs st nreq treq Hok Hsk Hn Hb) as (Hb1 & [E1|(last & g & Hg)] & Hrew).
+  - right. split; [exact E1|]. specialize (Hrew E1).
+    destruct Hb1 as (l0 & l1 & Efs & Hrest & Hopen & Htape).
+    destruct (fst (fst (open_read_all st nreq treq))) as [T R cur op] eqn:Est.
+    cbn [r_rest r_open r_tape] in *. subst op. rewrite Hrew. clear Hrest.
+    destruct (first_match (matches nreq treq) fs) as [Hnone|(la & x & lb & El & Hla & Hx)].
+    + rewrite Forall_forall in Hnone. rewrite (Hnone f Hin) in Hm. discriminate.
+    + rewrite (write_tape_records fs Hok). clear Efs. subst fs.
+      apply Forall_app in Hok as [Hoka Hokb]. apply Forall_app in Hsk as [Hska _].
+      apply Forall_cons_iff in Hokb as [Hokx Hoklb].
+      rewrite files_records_app. cbn [files_records].
+      rewrite (find_file _ cur nreq treq la x _ _ (passed_over_all _ _ _ Hoka Hska Hla) Hokx Hx last_ok0 Hn).
+      cbn [snd]. exists (end_last (0, 0, 0) la), x. repeat split; [|exact Hx].
+      apply in_or_app. right. left. reflexivity.
+  - left. exists last, g. exact Hg.
+Qed.
+
 (* ------------------------------------------------------------------------------------------------ decidable side conditions *)
 
 Definition file_okb (f : wfile) : bool :=
